@@ -61,6 +61,10 @@ def gen_spec(rng):
             a = rng.choice(ctor)
             ctor.append(G.notate(rng, G.expand(a)))             # equal only modulo notation
             info['notdup'] = True
+        if root and rng.random() < 0.05:
+            # a variable / metavariable id that does not fit a byte: the module must be refused
+            ctor.append(rng.choice([('e', 256), ('s', 300), G.mv(1000), ('x', 256, ('y', 1))]))
+            info['big_id'] = True
         if root and big:
             k = rng.choice([200, 250, 254, 255, 256, 257, 258, 300])
             ctor += [('y', 1000 + j) for j in range(k)]
@@ -249,13 +253,16 @@ def run(tier, seed):
             if not f:
                 kinds.append('refused:' + o.split()[-1])
                 # refusal is only legitimate for ids above 255
-                if not (o.startswith('REFUSED ValueError') and (nsym > 256 or 'big_k' in info)):
+                if not (o.startswith('REFUSED ValueError') and (nsym > 256 or 'big_k' in info or info.get('big_id'))):
                     if o.startswith('REFUSED AssertionError'):
                         kinds[-1] = 'refused:assert'     # e.g. ESubst over a notation head, duplicate claim
                     else:
                         oracle_fail.append((f'unexpected-refusal:{o.split()[-1]}', 'module refused for another reason than ids > 255',
                                             dict(request=line, answer=o)))
                 continue
+            if info.get('big_id'):
+                oracle_fail.append(('id-over-255-not-refused', 'a module with a variable id above 255 was serialised (ambiguous encoding)',
+                                    dict(request=line, answer=o[:300])))
             if nsym > 256:
                 oracle_fail.append(('over-255-not-refused', 'a module with more than 256 symbols was serialised',
                                     dict(request=line, answer=o[:300])))
@@ -308,7 +315,7 @@ def run(tier, seed):
                                 dict(request=line, off=decoded[0], on=decoded[1])))
         nontrivial = bool(decl_ax or decl_cl) and any(k.startswith(('published', 'refused:ValueError')) for k in kinds)
         R.case(line, nontrivial, '/'.join(kinds) or 'none')
-        for key in ('big', 'diamond', 'dup', 'notdup', 'added_dup', 'proofs_stripped', 'more_claims', 'fewer_claims'):
+        for key in ('big', 'diamond', 'dup', 'notdup', 'added_dup', 'proofs_stripped', 'more_claims', 'fewer_claims', 'big_id'):
             if info.get(key):
                 R.hist['feature:' + key] = R.hist.get('feature:' + key, 0) + 1
         R.hist[f'mods-{len(mods)}'] = R.hist.get(f'mods-{len(mods)}', 0) + 1
